@@ -19,7 +19,7 @@ Definition sc_list (tr : list ev) : list nat :=
   flat_map (fun e => match e with ESc i => [i] | _ => [] end) tr.
 (* instances created by timeout calls *)
 Definition st_ids (tr : list ev) : list nat :=
-  flat_map (fun e => match e with ESt i _ _ => [i] | _ => [] end) tr.
+  flat_map (fun e => match e with ESt i _ => [i] | _ => [] end) tr.
 (* instances created by add_future *)
 Definition af_ids (tr : list ev) : list nat :=
   flat_map (fun e => match e with EAf i _ => [i] | _ => [] end) tr.
@@ -41,12 +41,12 @@ Definition has_it (tr : list ev) : Prop := exists t, In (EIt t) tr.
 (* ---------- handles ---------- *)
 Definition cb_id (h : handle) : list nat := match h with HUser i KCb _ => [i] | _ => [] end.
 Definition cb_ids (l : list handle) : list nat := flat_map cb_id l.
-Definition to_id (h : handle) : list nat := match h with HUser i (KTo _ _) _ => [i] | _ => [] end.
+Definition to_id (h : handle) : list nat := match h with HUser i (KTo _) _ => [i] | _ => [] end.
 Definition to_ids (l : list handle) : list nat := flat_map to_id l.
 Definition fut_id (h : handle) : list nat := match h with HUser i (KFut _) _ => [i] | _ => [] end.
 Definition fut_ids (l : list handle) : list nat := flat_map fut_id l.
 Definition timerlike (h : handle) : bool :=
-  match h with HUser _ (KTo _ _) _ | HTimeoutCb _ => true | _ => false end.
+  match h with HUser _ (KTo _) _ | HTimeoutCb _ => true | _ => false end.
 Definition le_when (a b : handle) : Prop := hwhen a <= hwhen b.
 
 (* ---------- the logging discipline as an automaton over the chronological trace ----------
@@ -77,3 +77,22 @@ Fixpoint lfold (st : lstate) (tr : list ev) : option lstate :=
 (* kind of the instance that started last in tr *)
 Definition last_kind (tr : list ev) : option rkind :=
   fold_left (fun k e => match e with ERun _ k' _ => Some k' | _ => k end) tr None.
+
+(* ---------- futures ---------- *)
+Definition resolved (f : nat) (tr : list ev) : Prop := exists how v, In (ERs f how v) tr.
+(* event e occurs in tr and an iteration boundary follows it *)
+Definition aged_after (e : ev) (tr : list ev) : Prop := exists a b, tr = a ++ e :: b /\ has_it b.
+
+(* ---------- timeouts scheduled before / during the current iteration ----------
+   (old, young): timeout instances scheduled before the last iteration boundary / since it.  A timeout
+   scheduled by a callback of the current iteration ("young") cannot overtake the timeouts that this
+   iteration has already collected from the heap; every other pending timeout is ordered by deadline. *)
+Definition sched_step (acc : list nat * list nat) (e : ev) : list nat * list nat :=
+  match e with
+  | EIt _ => (fst acc ++ snd acc, [])
+  | ESt i _ => (fst acc, snd acc ++ [i])
+  | _ => acc
+  end.
+Definition sched_split (tr : list ev) : list nat * list nat := fold_left sched_step tr ([], []).
+Definition old_ids (tr : list ev) : list nat := fst (sched_split tr).
+Definition young_ids (tr : list ev) : list nat := snd (sched_split tr).
